@@ -92,6 +92,7 @@ func (cp *FreeList) Flush() (types.Work, error) {
 	cp.blockPool = make([]types.Block, 0, blockPoolSize)
 	cp.outstandingWork = 0
 	cp.poolLk.Unlock()
+	vhook.Point("fl.flush.swapped")
 
 	// The pool lock is released allowing Put to write to nextPool. The
 	// flushLock is still held, preventing concurrent flushes from changing the
